@@ -22,6 +22,8 @@ pub struct Spec<'a, T> {
     pub judge: &'a dyn Fn(&T, &str) -> Result<CaseInfo, String>,
     pub nbins: usize,
     pub max_shrink_steps: usize,
+    /// extra `[dependencies]` lines of the generated crate
+    pub extra_deps: &'a str,
 }
 
 fn runner_for(ctx: &Ctx, sub: &str) -> TestRunner {
@@ -33,7 +35,8 @@ fn runner_for(ctx: &Ctx, sub: &str) -> TestRunner {
 
 /// Evaluate a single case in its own one-case project (used for shrinking and replay).
 pub fn run_single<T>(spec: &Spec<T>, case: &T) -> Result<Result<CaseInfo, String>, String> {
-    let project = Project::new(&format!("{}-single", spec.project), spec.prelude);
+    let mut project = Project::new(&format!("{}-single", spec.project), spec.prelude);
+    project.extra_deps = spec.extra_deps.to_string();
     let cases = vec![GenCase { id: 0, source: (spec.source)(case) }];
     let res = project.run_batch(&cases, 1)?;
     if let Some(msg) = res.rejected.get(&0) {
@@ -70,7 +73,8 @@ where
     }
     let values: Vec<T> = trees.iter().map(|t| t.current()).collect();
     let cases: Vec<GenCase> = values.iter().enumerate().map(|(id, v)| GenCase { id, source: (spec.source)(v) }).collect();
-    let project = Project::new(spec.project, spec.prelude);
+    let mut project = Project::new(spec.project, spec.prelude);
+    project.extra_deps = spec.extra_deps.to_string();
     let res = match project.run_batch(&cases, spec.nbins) {
         Ok(r) => r,
         Err(e) => {
